@@ -276,6 +276,73 @@ def _ob_set_clear(x0: int, x1: int, c0: int, c1: int, on: int, s1: int, s2: int,
     return True
 
 
+# ---------------------------------------------------------------------------
+# 3. calibration changed through ANOTHER handle of the same array is seen by a
+#    handle that has already been read from; read_direct into a buffer of the
+#    stored element type and shape
+# ---------------------------------------------------------------------------
+def _ob_two_handles(x0: int, c0: int, c1: int, on: int, step1: int, step2: int) -> bool:
+    """
+    pre: -LIM <= x0 <= LIM and -LIM <= c0 <= LIM and -LIM <= c1 <= LIM and -LIM <= on <= LIM
+    pre: 0 <= step1 < 4 and 0 <= step2 < 4
+    post: __return__
+    """
+    import numpy as np
+    f, blk, da, ds = _mk(1, (x0, 0, 0), np.float64)
+    raw = ds.node.value[0]
+    a = f.blocks["b"].data_arrays["da"]          # handle A: read before any calibration exists
+    view = a.get_slice([0], [1])
+    if not (list(a[:])[0] == raw and list(view[:])[0] == raw):
+        return False
+    coeffs, origin = [], None
+    for step in (step1, step2):
+        b = f.blocks["b"].data_arrays["da"]      # handle B: a different Python object each time
+        op = _pick(["coeff", "origin", "clear_coeff", "clear_origin"], step)
+        if op == "coeff":
+            coeffs = [Q(c0, 16), Q(c1, 16)]
+            b.polynom_coefficients = coeffs
+        elif op == "origin":
+            origin = Q(on, 16)
+            b.expansion_origin = origin
+        elif op == "clear_coeff":
+            coeffs = []
+            b.polynom_coefficients = None
+        else:
+            origin = None
+            b.expansion_origin = None
+        calibrated = len(coeffs) > 0 or (origin is not None and bool(origin))
+        want = _expect(raw, coeffs, origin) if calibrated else raw
+        if not (list(a[:])[0] == want and list(view[:])[0] == want and list(b[:])[0] == want):
+            return False
+    return True
+
+
+def _ob_read_direct_typed(ci: int, oi: int, ti: int) -> bool:
+    """
+    pre: 0 <= ci < 3 and 0 <= oi < 3 and 0 <= ti < 2
+    post: __return__
+    """
+    import numpy as np
+    sdtype = _pick([np.float64, np.int32], ti)
+    f, blk, da, ds = _mk(2, (0, 0, 0), sdtype)
+    ds.node.value = [3, 5] if sdtype is np.int32 else [3.0, 5.0]
+    coeffs = _pick([[], [1.0, 2.0], [0.5, 0.0, 1.0]], ci)
+    origin = _pick([None, 0.0, 1.0], oi)
+    if coeffs:
+        da.polynom_coefficients = coeffs
+    if origin is not None:
+        da.expansion_origin = origin
+    calibrated = len(coeffs) > 0 or bool(origin)
+    # the buffer the documentation asks for: stored shape, C-contiguous, and - the common
+    # case - the stored element type (double for calibrated reads)
+    buf = np.zeros((2,), dtype=(np.float64 if calibrated else sdtype))
+    da.read_direct(buf)
+    o = origin if origin else 0.0
+    want = [sum(c * (x - o) ** k for k, c in enumerate(coeffs)) if coeffs else (x - o)
+            for x in (3.0, 5.0)] if calibrated else [3.0, 5.0]
+    return [float(v) for v in buf] == want
+
+
 def validate():
     """Horner shim == numpy.polynomial.polynomial.polyval; SArr slicing == ndarray slicing"""
     import numpy as np
@@ -382,6 +449,13 @@ OBLIGATIONS = [
        replay=lambda a: _real("_ob_read", a),
        outside="coefficient lists longer than 3 (quick) ; rank > 1; float rounding of the polynomial; "
                "reads through tags (they read through the same DataView path, C08)"),
+    Ob("calibration_through_another_handle", _ob_two_handles, timeout=900,
+       functions=[_A + "_read_data", _A + "polynom_coefficients", _A + "expansion_origin",
+                  "nixio.data_view.DataView._read_data"],
+       outside="two calibration changes through fresh handles; one stored value"),
+    Ob("read_direct_typed_buffer", _ob_read_direct_typed, timeout=300,
+       functions=["nixio.data_set.DataSet.read_direct", _A + "_read_data"],
+       outside="concrete stored values 3 and 5, three coefficient sets, three origins"),
     Ob("set_clear_sequences", _ob_set_clear, timeout=900,
        functions=[_A + "polynom_coefficients", _A + "expansion_origin", _A + "_read_data"],
        outside="sequences longer than 3 steps"),
